@@ -370,5 +370,7 @@ def run(ck, tier):
     ck.guard(r4_reclass, ck, cx)
     ck.guard(r4_dispatch_reaches_every_code, ck, cx)
     ck.guard(r5_no_shared_default_state, ck, cx)
+    from .c01 import r7_register_keeps_tables
+    ck.guard(r7_register_keeps_tables, ck, cx, 'R4')
     ck.assume('equality of values through struct is trusted; bit lists round-trip up to zero padding as a consequence of pack_bitstring/unpack_bitstring (trusted base)')
     return cx.idx
